@@ -268,6 +268,19 @@ def gen_hist(ctx):
         out.append({"what": "kdtree_layout", "ndata": r.choice([20, 50]), "nx": r.choice([9, 23]), "k": [1, 3][i % 2], "layout": list(l),
                     "dtype": "float64" if i != 1 else "float32", "nprocs": r.choice([2, 3]), "chunk": r.choice([None, 2]),
                     "kind": KINDS[i % 3], "seed": r.randrange(1 << 30)})
+    # partial failure: the engine fails for some rows only, so some (not all) workers fail while holding a slice; also inputs
+    # for which the single-process call returns inf / nan instead of raising (errcheck=False, NaN in one coordinate array only)
+    combos = [(np_, kind) for np_ in (2, 3) for kind in KINDS]
+    r.shuffle(combos)
+    for i, (np_, kind) in enumerate(combos[:ctx.n(4, 6)]):
+        out.append({"what": "proj_failure", "proj": projs[0], "n": r.choice([40, 90, 150]), "bad_at": [r.choice([0.0, 0.3, 0.7, 1.0])],
+                    "bad": ["lat95", "lat95", "nan_lon", "inf_lat"][i % 4], "errcheck": i % 4 != 3, "nprocs": np_, "chunk": r.choice([None, 7]),
+                    "kind": kind, "seed": r.randrange(1 << 30)})
+    r.shuffle(combos)
+    for i, (np_, kind) in enumerate(combos[:ctx.n(3, 6)]):
+        out.append({"what": "kdtree_failure", "ndata": 50, "n": r.choice([30, 80]), "bad_at": [[0.5], [0.0], [1.0], [0.2, 0.9]][i % 4],
+                    "bad": ["nan", "inf"][i % 2], "k": [1, 3][i % 2], "nprocs": np_, "chunk": r.choice([None, 5]), "kind": kind,
+                    "seed": r.randrange(1 << 30)})
     for i in range(ctx.n(1, 4)):
         out.append({"what": "neighbour_info", "shape": [9, 7] if i % 2 == 0 else [12, 5], "nsrc": 300, "k": [1, 3][i % 2], "nprocs": 2,
                     "segments": 3, "seed": r.randrange(1 << 30)})
@@ -289,7 +302,8 @@ def run_hist(ctx):
         ran += 1
         ctx.case(("hist", repr(c)), nontrivial=True, sample={"history_" + c["what"]: c, "impl": r})
         if not r.get("ok"):
-            key = {"neighbour_info": "C15.mp_equals_sp.segments", "proj_layout": "C15.mp_equals_sp.layout.proj",
+            key = {"proj_failure": "C15.mp_equals_sp.partial_failure.proj", "kdtree_failure": "C15.mp_equals_sp.partial_failure.kdtree",
+                   "neighbour_info": "C15.mp_equals_sp.segments", "proj_layout": "C15.mp_equals_sp.layout.proj",
                    "kdtree_layout": "C15.mp_equals_sp.layout.kdtree"}.get(c["what"], "C15.mp_equals_sp.repeated_call")
             stage = ""
             if c["what"] in ("kdtree_repeat", "proj_repeat") and "error" not in r and all(r.get("calls", [False])):
@@ -305,6 +319,14 @@ def run_hist(ctx):
                                      "scipy cKDTree.query = %s%s" % (c.get("repeat", 0), c.get("plan") or c.get("nx", 0), c.get("k", 0), r.get("calls", r), stage),
                     "proj_repeat": "the same Proj_MP object called %d times with input shapes %s: call results equal to the "
                                    "single-process projection = %s%s" % (c.get("repeat", 0), c.get("plan") or c.get("n", 0), r.get("calls", r), stage),
+                    "proj_failure": "Proj_MP(..)(lons, lats, errcheck=%s, nprocs=%s, schedule=%s) with %d points of which row(s) at %s are %s: "
+                                    "single-process transformer -> %s; multi-process -> %s" % (
+                                        c.get("errcheck"), c.get("nprocs"), c.get("kind"), c.get("n", 0), c.get("bad_at"), c.get("bad"),
+                                        r.get("single_process"), r.get("multi_process", r)),
+                    "kdtree_failure": "cKDTree_MP(nprocs=%s, schedule=%s).query of %d points (k=%s) of which row(s) at %s contain %s: "
+                                      "scipy cKDTree.query -> %s; multi-process -> %s" % (
+                                          c.get("nprocs"), c.get("kind"), c.get("n", 0), c.get("k"), c.get("bad_at"), c.get("bad"),
+                                          r.get("single_process"), r.get("multi_process", r)),
                     "proj_layout": "Proj_MP(%s) on %s coordinate arrays of shape %s with memory layouts %s (inverse=%s) differs from the "
                                    "single-process projection of the same values" % (c.get("proj"), c.get("dtype"), c.get("shape"),
                                                                                      c.get("layout"), c.get("inverse")),
@@ -326,7 +348,10 @@ def run(ctx):
                 "of equal and different sizes/shapes incl. empty, all results kept and re-compared after the last call, caller overwrites "
                 "its input and result arrays, kd_tree.get_neighbour_info with nprocs=2 and 3 segments, and the array arguments of Proj_MP / cKDTree_MP in "
                 "C / Fortran / transposed-view / strided / negative-stride / offset-window layouts, mixed between the two arguments, "
-                "float64 / float32 / int64) against the single-process results. Non-trivial = at least two slices handed out and at least two workers received one "
+                "float64 / float32 / int64, and inputs on which the engine fails for some rows only "
+                "(lat 95 with errcheck, NaN in one coordinate array, inf; NaN/inf query points) for nprocs 2, 3 and every kind: the "
+                "multi-process call must raise iff the single-process one raises and otherwise return the same arrays) against the "
+                "single-process results. Non-trivial = at least two slices handed out and at least two workers received one "
                 "(or, single worker, at least two slices); distinct = distinct (configuration, executed schedule)")
     import time
     t0 = time.time()
